@@ -224,8 +224,8 @@ func runHistory(w *worker, h history) bool {
 					fmt.Sprintf("%d of 16 simultaneous submissions of one blob succeeded, expected %d | %s", rc.nOK, want, rc.desc), h, rc.i, w)
 			}
 			accepted[key] += rc.nOK
-			for _, wire := range rc.wires {
-				if cli := subs[rc.i].cli; cli != "" && o.Of < 0 {
+			for k, wire := range rc.wires {
+				if cli := subs[rc.i].cli; cli != "" && o.Of < 0 && k == 0 {
 					if rep := w.ref.CliFeed(cli, wire); rep.Class != "ok" {
 						violate("answer-rejected-by-reference-client", "impl-oracle",
 							fmt.Sprintf("the reference client (own hour %+d) does not accept the server's answer: %s | %s", subs[rc.i].off, rep.Raw, rc.desc), h, rc.i, w)
@@ -407,7 +407,7 @@ func main() {
 		r.Finish()
 	}
 	var hs []history
-	nH := r.Scale(24, 400)
+	nH := r.Scale(40, 450)
 	for i := 0; i < nH; i++ {
 		hs = append(hs, genHistory(rng.Fork(), rng.Range(15, 40)))
 	}
